@@ -17,6 +17,11 @@ var deadlines = []time.Duration{50 * time.Millisecond, 0, 2 * time.Second}
 func init() {
 	// C11 / C12: while one goroutine's Send waits for queue space (a documented blocking call), other
 	// goroutines' calls on the same socket - Recv with a deadline, option calls - are not held up
+	// C11: a Recv with a deadline while another goroutine resizes the queue returns by its deadline
+	vexplore.Register("C11", func(tier string) []*vexplore.Scenario {
+		return []*vexplore.Scenario{{Name: "recv-with-a-deadline-vs-queue-resizes", Mode: "enum", Reset: kit.ResetGlobals, Body: recvDeadlineResizes,
+			NeedCounters: []string{"recv-timeout-exact-across-queue-resizes"}}}
+	})
 	for _, prop := range []string{"C11", "C12"} {
 		vexplore.Register(prop, func(tier string) []*vexplore.Scenario {
 			return []*vexplore.Scenario{{Name: "other-calls-while-a-send-waits-for-queue-space", Mode: "enum", Reset: kit.ResetGlobals, Body: recvWhileSendWaits,
